@@ -166,6 +166,19 @@ def run(ck):
             ok = flow.equivalent(flow.rename(rel[0][1], names), flow.parse_formula('HASREPLACE and not SAMEVALUE'))[0] and len(names) == len(flow.atoms_of(rel[0][1]))
     ck.ob('MPT-label', mod.loc(fp), ok, 'the attribute changes a modification declares for an atom are applied whether the atom is added by the modification or an anchor',
           key='MPT-label|replace')
+    # .. and they have the last word: the canonical attributes of an added atom (name, element, resname of the template) are copied first, the declared
+    # changes (`replace`) are applied after them -- the other way round the template value overwrites the change
+    tmpl = [s_ for s_ in walk_local(fp) if isinstance(s_, ast.Assign) and u(s_.targets[0]) == 'mol_node[attr]' and u(s_.value) == 'ptm_node[attr]']
+    from ..util import runs_after
+    okord = len(tmpl) == 1 and len(rep) == 1 and runs_after(fp, mod.stmt_of(tmpl[0]), rep[0][0]) and not runs_after(fp, rep[0][0], mod.stmt_of(tmpl[0])) \
+        if len(rep) == 1 and len(tmpl) == 1 else False
+    if len(tmpl) == 1 and len(rep) == 1:
+        # both sit in the loop over the match: "after" must hold inside one iteration (compare their positions in the loop body)
+        body_ = lp[0].body if ok or (len(rep) == 1 and lp) else []
+        pos = {id(x): i for i, st_ in enumerate(body_) for x in ast.walk(st_)}
+        okord = id(tmpl[0]) in pos and id(rep[0][0]) in pos and pos[id(tmpl[0])] < pos[id(rep[0][0])]
+    ck.ob('MPT-label', mod.loc(fp), okord, 'the template attributes of an added atom are copied before the declared attribute changes are applied, so the changes win',
+          key='MPT-label|replace-last')
 
     # ------------------------------------------------------------ KEY: what a residue is
     nk = 0
